@@ -8,6 +8,9 @@ import Ptn.C10.Value
 import Ptn.C10.ValueRun
 import Ptn.C10.BondDim
 import Ptn.C10.BondAxes
+import Ptn.C10.SvdNetwork
+import Ptn.C10.TruncOrder
+import Ptn.C10.SvdSweep
 /-! Property theorems for C10 (selection rule of the singular-value truncation).  Only property
 theorems and non-vacuity examples live here; helper lemmas are in `Lemmas.lean`, the
 specification vocabulary (`Desc`, `NonNeg`, `survives`, `Fits`, `capMin`, `renormFactor`) in
@@ -566,6 +569,96 @@ example : ∃ t t', TRunL TTN.empty buildOps t ∧ t.WF ∧ t.LWF ∧
         (.cons trivial ⟨_, rfl, rfl⟩ rfl (.nil _)))))).2,
     rfl, by decide +kernel, by decide +kernel, by decide +kernel⟩
 
+/-- **`truncate_node` visits every non-root node exactly once.**  For every well-formed tree with root `r`, the list
+    `truncOrder t.S (t.nodes.length + 1) r` of (parent, child) pairs - the order in which `truncate_node` inserts the
+    projector pairs, with the recursion depth the model's `recursiveTruncation` allows - has no child twice, contains
+    exactly the nodes that have a parent, pairs every one of them with ITS parent, and is therefore a permutation of
+    every duplicate-free enumeration of the non-root nodes.  (The fuel `number of nodes + 1` always suffices: the call
+    stack consists of distinct nodes.) -/
+theorem truncOrder_perm {t : TTN} (h : t.WF) {r : Id} (hr : t.root = some r) :
+    ((truncOrder t.S (t.nodes.length + 1) r).map Prod.snd).Nodup ∧
+    (∀ c, c ∈ (truncOrder t.S (t.nodes.length + 1) r).map Prod.snd ↔ ∃ p cch, t.S c = some (some p, cch)) ∧
+    (∀ p c, (p, c) ∈ truncOrder t.S (t.nodes.length + 1) r → ∃ cch, t.S c = some (some p, cch)) ∧
+    (∀ l : List Id, l.Nodup → (∀ c, c ∈ l ↔ ∃ p cch, t.S c = some (some p, cch)) →
+      ((truncOrder t.S (t.nodes.length + 1) r).map Prod.snd).Perm l) := by
+  have hnd := truncOrder_nodup h.str (t.nodes.length + 1) r
+  have hmem : ∀ c, c ∈ (truncOrder t.S (t.nodes.length + 1) r).map Prod.snd ↔
+      ∃ p cch, t.S c = some (some p, cch) := by
+    intro c
+    constructor
+    · intro hc
+      obtain ⟨⟨p, c'⟩, hm, e⟩ := List.mem_map.mp hc
+      simp at e; subst e
+      obtain ⟨p', cch, e, _⟩ := (truncOrder_sound _ r p c' hm).1.parent_cases h.str
+      exact ⟨p', cch, e⟩
+    · rintro ⟨p, cch, e⟩
+      obtain ⟨dp, hd⟩ := h.str.depth
+      obtain ⟨r', ch, e1, e2⟩ := h.str.root_ok
+      rw [hr] at e1; simp at e1; subst e1
+      refine truncOrder_complete h hd _ r [] ?_ (by simp) (by simp) (by simp) (by simp) c
+        (sdesc_root h.str hr c p cch e)
+      intro e'; rw [S_none_of_N e'] at e2; simp at e2
+  refine ⟨hnd, hmem, ?_, ?_⟩
+  · intro p c hm
+    obtain ⟨_, pp, pch, e, hc⟩ := truncOrder_sound _ r p c hm
+    exact h.str.down p _ _ c e hc
+  · intro l hl hml
+    exact (List.perm_ext_iff_of_nodup hnd hl).mpr (fun c => (hmem c).trans (hml c).symm)
+
+-- on the chain-with-a-branch: root `1`, the order is `2, 3` (children of the root), then `4`
+example : ∃ t, TRun TTN.empty buildOps t ∧ t.WF ∧ t.root = some 1 ∧
+    truncOrder t.S (t.nodes.length + 1) 1 = [(1, 2), (1, 3), (2, 4)] :=
+  ⟨_, .cons ⟨rfl, rfl⟩ rfl (.cons trivial rfl (.cons trivial rfl (.cons trivial rfl (.nil _)))),
+    built_wf (show TRun TTN.empty buildOps _ from
+      .cons ⟨rfl, rfl⟩ rfl (.cons trivial rfl (.cons trivial rfl (.cons trivial rfl (.nil _))))),
+    rfl, by decide +kernel⟩
+
+/-- **`svd_truncation`: every cut bond within `max_bond_dim`, no bond ever grows - partial.**  `SvdSweep D t es t'`: a
+    run of the structural model's `centreMove` (`move_orthogonalization_center`) and `contractSplit`
+    (`contract_and_split_with_parent`) events in which (assumptions of the model, all explicit in `SvdSweep`)
+    every cut has new dimension `bd ≤ D` (true of `keptDim`, `keptDim_bounds`), every QR move has `bd ≤` the dimension
+    of the bond it crosses (contract of `tensor_qr_decomposition`: `min(rows, columns) ≤ columns`), and
+    every event is LOCAL to its bond (`BondLocal`: the bond gets `bd` at both ends, every other leg keeps its axis).
+    Then in the result (1) every leg of a pair that was cut has dimension `≤ D`, whatever moves crossed it afterwards;
+    (2) every leg has dimension `≤ D` or at most the dimension it had at the start; (3) if every bond of the result
+    was cut (the sweep of `svd_truncation` cuts the bond above every non-root node), every virtual leg of every node
+    is `≤ D`.
+    *Missing*: `BondLocal` is a hypothesis per event (a decidable statement about the two concrete networks, checked
+    by evaluation below and by the oracle `bond ≤ max_bond_dim` on every live run), not a theorem about
+    `centreMove` / `contractSplit` for all networks - that needs the leg-level version of `two_site_core` /
+    `split_down` / `split_up` of `Ptn/C02/CompositeWF.lean` (the push-forward lemmas of `LegPush.lean` are the
+    ingredients; done for `truncate_node` in `BondAxes.lean`); and that the event list of the real sweep
+    (`linearise()` order) cuts every bond is an input. -/
+theorem svd_truncation_bonds_le_partial {D : Nat} {t t' : TTN} {es : List TdvpEvent} (h : SvdSweep D t es t') :
+    (∀ k x ax, t'.Leg k x ax → ((k, x) ∈ cutPairs es ∨ (x, k) ∈ cutPairs es) → ax.dim ≤ D) ∧
+    (∀ k x ax, t'.Leg k x ax → ax.dim ≤ D ∨ ∃ ax0, t.Leg k x ax0 ∧ ax.dim ≤ ax0.dim) ∧
+    ((∀ k x ax, t'.Leg k x ax → (k, x) ∈ cutPairs es ∨ (x, k) ∈ cutPairs es) →
+      ∀ e ∈ t'.nodes, ∀ q ∈ t'.legPairs e.1, q.2.dim ≤ D) := by
+  refine ⟨fun k x ax hl => (svd_sweep_legs h k x ax hl).1, fun k x ax hl => (svd_sweep_legs h k x ax hl).2, ?_⟩
+  intro hall e _ q hq
+  exact (svd_sweep_legs h e.1 q.1 q.2 hq).1 (hall e.1 q.1 q.2 hq)
+
+-- the sweep of the third example of `Tree.lean` (centre to the leaf `4`, cut `(4,2)`, centre to `3`, cut `(3,1)`, cut
+-- `(2,1)`) satisfies every assumption of `SvdSweep` with `D = 2`: each event is local to its bond (decided), each
+-- move respects the dimension of the bond it crosses (bond `1 - 2` has dimension 3 until it is cut), all three
+-- bonds are cut
+set_option maxRecDepth 16384 in
+example : ∃ t t', TRun TTN.empty buildOps t ∧
+    SvdSweep 2 t [.move 3 1 60 2, .move 1 2 61 3, .move 2 4 62 2, .contractSplit 4 2 63 1,
+               .move 2 1 64 2, .move 1 3 65 2, .contractSplit 3 1 66 1, .contractSplit 2 1 67 2] t' ∧
+    t.legPairs 1 = [(2, ⟨100, 3⟩), (3, ⟨101, 2⟩)] ∧
+    t'.legPairs 1 = [(2, ⟨1000007, 2⟩), (3, ⟨1000006, 1⟩)] ∧ t'.legPairs 4 = [(2, ⟨1000003, 1⟩)] :=
+  ⟨_, _, .cons ⟨rfl, rfl⟩ rfl (.cons trivial rfl (.cons trivial rfl (.cons trivial rfl (.nil _)))),
+    .move rfl (by decide +kernel) ⟨⟨101, 2⟩, by decide +kernel, by decide +kernel, by decide⟩
+    (.move rfl (by decide +kernel) ⟨⟨100, 3⟩, by decide +kernel, by decide +kernel, by decide⟩
+    (.move rfl (by decide +kernel) ⟨⟨102, 2⟩, by decide +kernel, by decide +kernel, by decide⟩
+    (.cut rfl (by decide +kernel) (by decide)
+    (.move rfl (by decide +kernel) ⟨⟨1000001, 3⟩, by decide +kernel, by decide +kernel, by decide⟩
+    (.move rfl (by decide +kernel) ⟨⟨1000000, 2⟩, by decide +kernel, by decide +kernel, by decide⟩
+    (.cut rfl (by decide +kernel) (by decide)
+    (.cut rfl (by decide +kernel) (by decide) (.nil _)))))))),
+    by decide +kernel, by decide +kernel, by decide +kernel⟩
+
 end bond_dims
 
 /-! ### Value level (`Value.lean`, `ValueRun.lean`): non-vacuity -/
@@ -658,5 +751,61 @@ example : ∃ t, TRun TTN.empty buildOps t ∧
   ⟨_, .cons ⟨rfl, rfl⟩ rfl (.cons trivial rfl (.cons trivial rfl (.cons trivial rfl (.nil _)))), rfl⟩
 
 end value_examples
+
+/-! ### The library's projectors (`SvdProjector.lean`, `SvdNetwork.lean`): non-vacuity -/
+
+section svd_examples
+open Ptn.Ein Finset
+
+/-- a rank-one "SVD" with a NON-square `U` (2 rows, 1 column): `M = [[3, 6], [0, 0]] = U · 3 · V`,
+`U = (1, 0)ᵀ`, `V = (1, 2)` -/
+def sxU : ℕ → ℕ → Int := fun x j => if x = 0 ∧ j = 0 then 1 else 0
+def sxM : ℕ → ℕ → Int := fun x c => if x = 0 then 3 * ((c : Int) + 1) else 0
+
+theorem sxU_orth : ∀ i j, i < 1 → j < 1 → ∑ x ∈ range 2, sxU x i * sxU x j = if i = j then 1 else 0 := by
+  intro i j hi hj
+  have : i = 0 := by omega
+  have : j = 0 := by omega
+  subst i; subst j
+  decide
+
+-- every hypothesis of `svd_projector_value` holds for it (all columns kept, `Π = diag(1, 0)` is NOT the identity
+-- matrix, yet `Π·M = M`)
+example : (∀ c y, y < 2 → ∑ x ∈ range 2, sxM x c * svdPi 1 sxU sxU x y = sxM y c) ∧
+    svdPi 1 sxU sxU 1 1 = (0 : Int) :=
+  ⟨(svd_projector_value 2 1 1 sxM sxU sxU (fun _ => 3) (fun _ c => (c : Int) + 1) (le_refl 1)
+      (by intro x c hx
+          have : x = 0 ∨ x = 1 := by omega
+          rcases this with rfl | rfl <;> simp [sxM, sxU])
+      sxU_orth).2.2.2.1 rfl, by decide⟩
+
+/-- the node tensor `A[0, 1]` (open leg `0`, bond leg `1`) with that matricisation, and a neighbour `B[2, 3]` -/
+def sxA : Asg Nat → Int := fun τ => if τ 1 = 0 then 3 * ((τ 0 : Int) + 1) else 0
+def sxDim : Nat → Nat := fun l => if l = 5 ∨ l = 6 then 1 else 2
+
+-- `svd_projector_full_value`: every hypothesis holds on the network `A —(1,2)— B` (projector legs `4, 5 | 6, 7`, one
+-- kept column = all columns)
+example (σ : Asg Nat) :
+    netValue sxDim ([] ++ [(1, 4), (5, 6), (7, 2)])
+        ((fun ρ => sxU (ρ 4) (ρ 5)) :: (fun ρ => sxU (ρ 7) (ρ 6)) :: sxA :: [exB]) σ =
+      netValue sxDim ([] ++ [(1, 2)]) (sxA :: [exB]) σ :=
+  svd_projector_full_value sxDim [] sxU sxU (fun _ => 3) (fun _ τ => (τ 0 : Int) + 1) sxA [exB] 1 2 4 7 5 6
+    (S := (· ∈ [2, 3])) (SA := (· ∈ [0, 1]))
+    (by intro f hf σ τ h
+        simp only [List.mem_cons, List.not_mem_nil, or_false] at hf
+        subst hf
+        simp only [exB, h 2 (by simp), h 3 (by simp)])
+    (by simp) (by simp) (by simp) (by simp) (by simp)
+    (by intro σ τ h; simp only [sxA, h 0 (by simp), h 1 (by simp)])
+    (by simp) (by simp) (by simp) (by simp)
+    (by decide) rfl
+    (by intro τ x hx
+        have hx' : x < 2 := hx
+        have : x = 0 ∨ x = 1 := by omega
+        rcases this with rfl | rfl <;> simp [sxA, sxU, sxDim, upd])
+    (by intro i j hi hj; exact sxU_orth i j hi hj)
+    σ
+
+end svd_examples
 
 end Ptn.C10
